@@ -4,6 +4,7 @@ validated by TLC, then classifies the validator's FAIL lines."""
 import json
 import os
 import random
+import re
 import time
 
 from . import core, gens
@@ -106,7 +107,9 @@ def run_batch(out, label, dictname, histories, spec="Trace_File", nshards=None, 
         if k:
             out.known.append((k, what))
             continue
+        bundle = [h for h in histories if group_key(h) == group_key(hist)] if group_key and hist else None
         payload = {"property": out.prop, "batch": label, "dict": dictname, "spec": spec, "driver": driver,
+                   "extra_specs": list(extra_specs), "bundle": bundle,
                    "failed": [{"tag": x.tag, "rule": x.rule, "op_index": x.oi, "detail": x.detail} for x in mine],
                    "history": hist,
                    "event": {k2: v for k2, v in (ev or {}).items() if k2 not in ("img", "api", "reopen")} if ev else None}
@@ -146,8 +149,9 @@ def finish(out, level, rule, assumptions, extra_cov=None):
     if level == "model_checking" and (cov["states"] < 1 or cov["transitions"] < 1):
         # the schema wants the fallback keys when the level's own keys are absent
         cov.pop("states"), cov.pop("transitions")
-    core.write_evidence(out.prop, out.tier, out.seed, level, cov, assumptions, time.time() - out.t0,
-                        len(out.violations))
+    if not getattr(out, "replay", False):       # a replay never overwrites the evidence of a full run
+        core.write_evidence(out.prop, out.tier, out.seed, level, cov, assumptions, time.time() - out.t0,
+                            len(out.violations))
     log(f"[{out.prop}] histories={out.histories} events={out.events} violations={len(out.violations)} "
         f"known={len(out.known)} wall={time.time() - out.t0:.1f}s")
     return 1 if out.violations else 0
@@ -191,6 +195,50 @@ def random_batches(seed, tier, n_quick, n_thorough, nops, dicts=("A",), **kw):
     return out
 
 
+def design_phys(out, maxops, v4, cycles, timeout=3000):
+    """Exhaustive design-level run of MC_Phys (CfbPhys at tiny geometry).  Its verdict is about the
+    model; conformance of the code to the model is what phys_fidelity reports."""
+    b = lambda x: "TRUE" if x else "FALSE"
+    cfg = f"""SPECIFICATION Spec
+CONSTANTS Names = {{"a", "b", "c"}} Sizes = {{0, 1, 3, 7, 8, 9, 13}} MaxOps = {maxops} V4 = {b(v4)} Cycles = {b(cycles)} OldPolicy = FALSE
+INVARIANT InvFree InvCounts InvWF InvAbs NoGrowth
+CHECK_DEADLOCK FALSE
+"""
+    tag = f"mcp_{out.prop}_{maxops}_{int(v4)}_{int(cycles)}"
+    path = os.path.join(core.SPEC, f"_{tag}.cfg")
+    open(path, "w").write(cfg)
+    try:
+        rc, lines = core.run_tlc("MC_Phys.tla", os.path.basename(path), {}, os.path.join(core.WORK, f"md_{tag}"), workers=6,
+                                 timeout=timeout, xmx="8g", deque=False)
+    finally:
+        os.remove(path)
+    if not core.tlc_ok(lines):
+        raise core.ToolError("MC_Phys (design level) failed:\n" + "\n".join(lines[-30:]))
+    gen, distinct = core.tlc_stats(lines)
+    out.add_design(gen, distinct)
+    out.parts.append({"design": f"MC_Phys tiny geometry MaxOps={maxops} V4={v4} cycles={cycles}: WF (R1-R8), free lists, counters, "
+                                f"lengths refinement, NoGrowth", "states": distinct, "transitions": gen})
+
+
+class Fidelity:
+    """Collects Trace_Phys output: how many images the physical model predicted exactly, and where it did not."""
+
+    def __init__(self):
+        self.lines = []
+
+    def summary(self, prop):
+        compared = sum(int(m.group(1)) for m in (re.match(r'^<<"COMPARED", (\d+)>>', ln) for ln in self.lines) if m)
+        drift = [ln for ln in self.lines if ln.startswith('<<"DRIFT"')]
+        kinds = {}
+        for ln in drift:
+            k = ln.split('"')[3]
+            kinds[k] = kinds.get(k, 0) + 1
+        for k, n in sorted(kinds.items()):
+            print(f"SPEC-DRIFT {prop} CfbPhys does not predict the image: {k} x{n}")
+        return {"images_predicted_exactly_by_CfbPhys": compared - len(set(ln.split(",")[2] for ln in drift)), "images_compared": compared,
+                "drift": kinds}
+
+
 FILE_ASSUME = [
     "the Rust harness only drives and records; verdicts come from TLC evaluating CfbTree/CfbImage on the recorded events",
     "trusted base: harness raw decoder (field extraction + RLE), dictionaries generated from Python's Unicode tables, TLC",
@@ -203,6 +251,18 @@ def check_c01(tier, seed):
     run_batch(out, "edges", "A", edges_namespace(out, tier))
     from . import dirchecks
     run_batch(out, "shapes", "A", dirchecks.shape_histories(out, tier))
+    # whole-stream writes larger than the default stream buffer (1 MiB): several write-backs through one handle
+    big = []
+    for ver in (3, 4):
+        f = gens.Fill()
+        sp = gens.sp
+        ops = [{"op": "create_stream", "p": sp(["a"]), "heavy": False},
+               {"op": "write", "p": sp(["a"]), "off": 0, "runs": [[f.next(), 1048576], [f.next(), 1048576], [f.next(), 300001]], "heavy": False},
+               {"op": "read", "p": sp(["a"]), "heavy": False},
+               {"op": "write", "p": sp(["a"]), "off": 1000000, "runs": [[f.next(), 1200000]], "heavy": False},
+               {"op": "read", "p": sp(["a"]), "heavy": ver == 4}]
+        big.append({"id": f"bigwrite_v{ver}", "ver": ver, "heavy": "marked", "ops": ops})
+    run_batch(out, "bigwrite", "A", big)
     for dn, hs in random_batches(seed, tier, 60, 600, 40, dicts=("A", "B")).items():
         run_batch(out, f"random{dn}", dn, hs)
     return finish(out, "model_checking",
@@ -228,13 +288,19 @@ def check_c02(tier, seed):
 
 def check_c03(tier, seed):
     out = Outcome("C03", tier, seed)
+    fid = Fidelity()
+    for v4 in (False, True):
+        design_phys(out, 4 if tier == "quick" else 5, v4, False)
     run_batch(out, "thresholds", "A", gens.threshold_histories(tier, seed))
     for dn, hs in random_batches(seed + 2, tier, 50, 500, 40, dicts=("A", "B", "D")).items():
-        run_batch(out, f"random{dn}", dn, hs)
-    run_batch(out, "edges", "A", edges_namespace(out, tier))
+        run_batch(out, f"random{dn}", dn, hs, extra_specs=("Trace_Phys",), keep=fid.lines)
+    run_batch(out, "edges", "A", edges_namespace(out, tier), extra_specs=("Trace_Phys",), keep=fid.lines)
     return finish(out, "model_checking",
-                  "WF(img) (rules R1..R8 of spec/CfbImage.tla) evaluated by TLC on the independent raw decode of the image after every heavy event",
-                  FILE_ASSUME)
+                  "WF(img) (rules R1..R8 of spec/CfbImage.tla) evaluated by TLC on the independent raw decode of the image after every heavy event; "
+                  "design level: the same rules are invariants of MC_Phys (CfbPhys = transcription of the allocator / mini allocator / directory / stream write paths, "
+                  "exhaustive at tiny geometry, reaching FAT, DIFAT, directory and MiniFAT growth); fidelity: Trace_Phys replays the recorded histories through CfbPhys "
+                  "at real geometry and compares every predicted table with the image",
+                  FILE_ASSUME, {"fidelity": fid.summary("C03")})
 
 
 def check_c10(tier, seed):
@@ -251,8 +317,38 @@ def check_c10(tier, seed):
         h["hash"] = True
         hs.append(h)
     run_batch(out, "seeks", "A", hs, spec="Trace_Handle", driver="hdrive")
+    # refusals on files written by others: entries that carry tolerated deviations are normalised in
+    # memory; a refused call must not write the normalised form back
+    from . import imagechecks
+    for c in [x for x in imagechecks.contents(tier) if x["id"] in ("c4_mixed", "c5_sibs")]:
+        d = gens.Dict(c["dict"])
+        byid = {n["id"]: n for n in c["nodes"]}
+
+        def path(n):
+            p = []
+            while n:
+                p.append(byid[n]["name"])
+                n = byid[n]["parent"]
+            return p[::-1]
+        refusals = []
+        for n in c["nodes"]:
+            pth = gens.sp(path(n["id"]))
+            if n["kind"] == "stream":
+                refusals += [{"op": "set_clsid", "p": pth, "v": "r1"}, {"op": "remove_storage", "p": pth}, {"op": "create_new_stream", "p": pth},
+                             {"op": "create_storage", "p": pth}, {"op": "read_storage", "p": pth}]
+            else:
+                refusals += [{"op": "remove_stream", "p": pth}, {"op": "create_storage", "p": pth}, {"op": "create_stream", "p": pth},
+                             {"op": "open_stream", "p": pth}]
+        refusals += [{"op": "remove_storage", "p": gens.sp([])}, {"op": "set_bits", "p": gens.sp(["nope"] if "nope" in d.tlc else ["zz", "zz"]), "v": "r1"}]
+        for o in refusals:
+            o["heavy"] = False
+        for ver in (3, 4):
+            devs = imagechecks.tlc_deviations(out, c, ver, 1, 1, 1, 1, seed, False, f"c10_{c['id']}_v{ver}")
+            hs = [{"id": f"devref_{c['id']}_v{ver}_{i}:{D['dev']}", "ver": ver, "heavy": "marked", "layout": D["lay"], "tree": D["tree"],
+                   "open_mode": "permissive", "expect": "deviation", "ops": refusals} for i, D in enumerate(devs)]
+            run_batch(out, f"deviated_{c['id']}_v{ver}", c["dict"], hs)
     return finish(out, "model_checking",
-                  "refused seeks on handles with pending data (Trace_Handle: image hash and position unchanged); every call the model refuses (NotFound / AlreadyExists / InvalidInput) must leave the image hash unchanged and the "
+                  "refusals on TLC-generated foreign files carrying tolerated deviations (bytes unchanged); refused seeks on handles with pending data (Trace_Handle: image hash and position unchanged); every call the model refuses (NotFound / AlreadyExists / InvalidInput) must leave the image hash unchanged and the "
                   "following events must validate against the unchanged model state; refusal x state coverage comes from the MC_Tree graph",
                   FILE_ASSUME)
 
@@ -263,6 +359,9 @@ def check_c08(tier, seed):
     hs = random_batches(seed + 5, tier, 40, 400, 50, dicts=("A",), meta_p=0.0, reopen_p=0.02,
                         sizes=[0, 1, 63, 64, 65, 100, 511, 512, 513, 4095, 4096, 4097, 5000, 8191, 8192, 8200])["A"]
     run_batch(out, "random", "A", hs)
+    # the same under a backend that transfers a few bytes at a time: zero filling must not rely on full writes
+    hs2 = [dict(h, id=h["id"] + "_chunked", backend={"kind": "mem", "chunks": [[7], [1, -1], [512, 3]][i % 3]}) for i, h in enumerate(hs[::2])]
+    run_batch(out, "random-chunked", "A", hs2)
     return finish(out, "model_checking",
                   "CfbTree.SetLen extends with a zero run; all writes use fresh non-zero fill bytes so stale data is a mismatch in api / Abs(img) / reopen dumps. "
                   "T1 write-shrink-grow triples, T2 reuse after remove/shrink (with/without pinned mini-stream tail), T3 across migrations",
@@ -271,11 +370,16 @@ def check_c08(tier, seed):
 
 def check_c15(tier, seed):
     out = Outcome("C15", tier, seed)
+    fid = Fidelity()
+    design_phys(out, 2 if tier == "quick" else 3, False, True)
     hs = gens.c15_templates(tier)
-    run_batch(out, "cycles", "A", hs)
+    run_batch(out, "cycles", "A", hs, extra_specs=("Trace_Phys",), keep=fid.lines)
     return finish(out, "model_checking",
-                  "prefix + 4 repetitions of a cycle that is net-zero on the model tree (checked); file length after repetitions 3 and 4 must equal the length after repetition 2",
-                  FILE_ASSUME + ["repetition 2 may still grow (containers created in repetition 1 capture freed sectors); only later growth is a leak"])
+                  "prefix + 4 repetitions of a cycle that is net-zero on the model tree (checked); file length after repetitions 3 and 4 must equal the length after repetition 2; "
+                  "design level: MC_Phys in cycle mode (every prefix up to the bound x cycle templates x sizes, NoGrowth invariant) at tiny geometry; "
+                  "fidelity: Trace_Phys predicts the image after every repetition",
+                  FILE_ASSUME + ["repetition 2 may still grow (containers created in repetition 1 capture freed sectors); only later growth is a leak"],
+                  {"fidelity": fid.summary("C15")})
 
 
 def check_c17(tier, seed):
@@ -298,14 +402,81 @@ def check_c07(tier, seed):
     run_batch(out, "random", "A", hs)
     from . import dirchecks
     dirchecks.c07_edges(out, tier)
+    foreign_handle_batches(out, tier, seed)
     return finish(out, "model_checking",
-                  "handles held open across structural mutation of OTHER entries, then used; full api / Abs(img) / reopen equality after every step",
+                  "handles held open across structural mutation of OTHER entries, then used (library-written files, TLC-generated foreign layouts with red-black "
+                  "trees, and layouts carrying tolerated deviations opened permissively); full api / Abs(img) / reopen equality after every step",
                   FILE_ASSUME + ["a handle's own stream is never removed or re-created while it is open; one handle per stream"])
+
+
+def foreign_handle_batches(out, tier, seed):
+    """Handles on files written by others (Gen_Layout) and on files carrying tolerated deviations
+    (Gen_Deviate): siblings are removed / created around open handles, then the handles write."""
+    import concurrent.futures as cf
+    from . import imagechecks as ic
+    cs = [c for c in ic.contents(tier) if c["id"] in ("c5_sibs", "c6_minis", "c12_punct", "c4_mixed")]
+
+    def script(c, d, k, deviated):
+        byid = {n["id"]: n for n in c["nodes"]}
+
+        def path(n):
+            p = []
+            while n:
+                p.append(byid[n]["name"])
+                n = byid[n]["parent"]
+            return p[::-1]
+        f = gens.Fill()
+        f.n = 200
+        streams = [n for n in c["nodes"] if n["kind"] == "stream"]
+        others = [n for n in c["nodes"] if not any(m["parent"] == n["id"] for m in c["nodes"])]
+        if not streams:
+            return [{"op": "flush", "heavy": True}]
+        held = [streams[(k + j) % len(streams)] for j in range(min(2, len(streams)))]
+        ops = [{"op": "open_stream", "p": gens.sp(path(h["id"])), "h": f"h{j}", "heavy": False} for j, h in enumerate(held)]
+        heldids = {h["id"] for h in held}
+        used = {n["name"] for n in c["nodes"]}
+        fresh = [x for x in d.valid if d.key(x) not in {d.key(u) for u in used}]
+        for n in others:
+            if n["id"] in heldids:
+                continue
+            ops.append({"op": "remove_stream" if n["kind"] == "stream" else "remove_storage", "p": gens.sp(path(n["id"])), "heavy": True})
+            ops.append({"op": "h_write", "h": "h0", "off": 0, "runs": [[f.next(), 70]], "heavy": True})
+        if fresh:
+            ops.append({"op": "create_stream", "p": gens.sp([fresh[k % len(fresh)]]), "heavy": False})
+            ops.append({"op": "write", "p": gens.sp([fresh[k % len(fresh)]]), "off": 0, "runs": [[f.next(), 5000]], "heavy": True})
+        ops.append({"op": "h_write", "h": "h0", "off": 10, "runs": [[f.next(), 4200]], "heavy": True})
+        if len(held) > 1:
+            ops.append({"op": "h_set_len", "h": "h1", "n": 700 + 64 * k, "heavy": True})
+            ops.append({"op": "h_read", "h": "h1", "heavy": False})
+        ops.append({"op": "h_read", "h": "h0", "heavy": False})
+        return ops
+    jobs = [(c, ver) for c in cs for ver in (3, 4)]
+    nlay = 12 if tier == "quick" else 120
+
+    def gen(j):
+        c, ver = j
+        Ls = ic.tlc_layouts(out, c, ver, 1, 1, 1, "simulate", nlay, seed + 11, f"c07_{c['id']}_v{ver}")
+        Ds = ic.tlc_deviations(out, c, ver, 1, 1, 1, 1, seed + 12, False, f"c07d_{c['id']}_v{ver}") if c["id"] in ("c4_mixed", "c6_minis") else []
+        return Ls, Ds
+    by_dict = {}
+    with cf.ThreadPoolExecutor(max_workers=6) as ex:
+        for (c, ver), (Ls, Ds) in zip(jobs, ex.map(gen, jobs)):
+            d = gens.Dict(c["dict"])
+            for i, L in enumerate(Ls):
+                by_dict.setdefault(c["dict"], []).append(
+                    {"id": f"fh_{c['id']}_v{ver}_{i}", "ver": ver, "heavy": "marked", "layout": L["lay"], "tree": L["tree"],
+                     "open_mode": "permissive" if i % 2 else "strict", "ops": script(c, d, i, False)})
+            for i, D in enumerate(Ds):
+                by_dict.setdefault(c["dict"], []).append(
+                    {"id": f"dh_{c['id']}_v{ver}_{i}:{D['dev']}", "ver": ver, "heavy": "marked", "layout": D["lay"], "tree": D["tree"],
+                     "open_mode": "permissive", "expect": "deviation", "ops": script(c, d, i, True)})
+    for dn, hs in sorted(by_dict.items()):
+        run_batch(out, f"foreign{dn}", dn, hs)
 
 
 def check_c09(tier, seed):
     out = Outcome("C09", tier, seed)
-    for dn, hs in random_batches(seed + 7, tier, 30, 300, 40, dicts=("A", "B", "C", "D", "E"), deep=False).items():
+    for dn, hs in random_batches(seed + 7, tier, 30, 300, 40, dicts=("A", "B", "C", "D", "E", "G"), deep=False).items():
         run_batch(out, f"random{dn}", dn, hs)
     run_batch(out, "edges", "A", edges_namespace(out, tier))
     from . import dirchecks
